@@ -1,355 +1,527 @@
-// Driver for Concurrency.tla (C20): a stress batch of concurrent global transactions through one
-// initialised client and shared database handles, with the coordinator delivering phase two
-// concurrently. Built with -race: every distinct report of the Go race detector becomes a Race event.
-// After the batch the driver measures what was borrowed and not returned.
+// Driver for Concurrency.tla (C20): stress batches of concurrent global transactions - AT, XA and TCC
+// branches mixed - through one initialised client and shared database handles, with the coordinator
+// delivering phase two concurrently, sessions being lost and opened meanwhile, and a "hot spot" phase in
+// which goroutines hammer the read-mostly shared components.  Built with -race: every distinct report of
+// the Go race detector becomes a Race event.  After each batch the driver measures what was borrowed and
+// not returned.
+//
+// The process supervises itself: the workload runs in a child (the race runtime reads GORACE at start-up);
+// if the child dies of a run-time fatal error (for example "concurrent map writes") the parent records
+// that as a Crash event of a one-trace batch instead of leaving the check without a verdict.
 package main
 
 import (
-	"bufio"
-	"context"
-	"errors"
+	"bytes"
+	"database/sql"
 	"fmt"
+	"io"
 	"math/rand"
 	"os"
+	"os/exec"
 	"path/filepath"
 	"regexp"
 	"runtime"
-	"sort"
 	"strings"
 	"sync"
-	"syscall"
 	"time"
 
+	sqlpkg "seata.apache.org/seata-go/pkg/datasource/sql"
 	"seata.apache.org/seata-go/pkg/protocol/branch"
-	"seata.apache.org/seata-go/pkg/protocol/message"
 	sgetty "seata.apache.org/seata-go/pkg/remoting/getty"
-	"seata.apache.org/seata-go/pkg/tm"
+	"seata.apache.org/seata-go/pkg/rm"
 
 	"verif/harness/atlab"
 	"verif/harness/common"
+	"verif/harness/memsql"
 	"verif/harness/tc"
 	"verif/harness/trace"
 )
 
-type reg struct {
-	bid int64
-	rid string
+// env is what one process of the driver shares.
+type env struct {
+	o          *common.Opts
+	lab        *atlab.Lab
+	schema     *atlab.Schema
+	xa         []*xaDB
+	tcc        *tccLab
+	co         *coordinator
+	lbSessions *sync.Map
 }
 
 func main() {
-	// the race runtime reads GORACE at start-up: re-exec once with a private log path
 	if os.Getenv("VERIF_RACE_LOG") == "" {
-		dir, err := os.MkdirTemp("", "verif-race")
-		if err == nil {
-			os.Setenv("VERIF_RACE_LOG", filepath.Join(dir, "race"))
-			os.Setenv("GORACE", "log_path="+filepath.Join(dir, "race")+" halt_on_error=0 exitcode=0")
-			if exe, err := os.Executable(); err == nil {
-				_ = syscall.Exec(exe, os.Args, os.Environ())
-			}
-		}
+		supervise()
+		return
 	}
-	defer os.RemoveAll(filepath.Dir(os.Getenv("VERIF_RACE_LOG")))
 	o := common.Parse()
-	cfg := tc.DefaultConfig()
-	cfg.LoadBalance = "RandomLoadBalance"
-	lab := atlab.Open(cfg, "stressdb")
-	lab.NKeys = 16
-	schema := atlab.ByName("t_int")
-	lab.Reset(schema)
-	for k := 1; k <= 16; k++ {
-		lab.Srv.MustExec(fmt.Sprintf("INSERT INTO t_int (id, w1, w2, u1) VALUES (%d, 10, 'v0', 7)", k))
-	}
-	lab.Srv.SetLockWaitTimeout(2 * time.Second)
-	lab.DB.SetMaxIdleConns(8)
-	// a second session opened concurrently with traffic, as a reconnecting client would have
+	e := setup(o)
 	w, err := trace.NewWriter(o.Out)
 	if err != nil {
 		common.Fatal("%v", err)
 	}
-	workers, perWorker := 8, 12
-	if o.Thorough() {
-		workers, perWorker = 24, 40
-	}
+	workers, perWorker, churns, hotN, hotD := 8, 12, 3, 12, 400*time.Millisecond
 	procs := []int{4, 16}
 	if o.Thorough() {
+		workers, perWorker, churns, hotN, hotD = 24, 60, 10, 24, 2500*time.Millisecond
 		procs = []int{2, 4, 8, 16}
 	}
-
-	// the coordinator: phase two is delivered asynchronously after the global decision, the way the TC does
-	var mu sync.Mutex
-	regs := map[string][]reg{} // xid -> registered branches
-	var p2 sync.WaitGroup
-	lab.Coord.Script = func(kind string, m tc.Msg) (tc.Reply, bool) {
-		switch req := m.Rpc.Body.(type) {
-		case message.BranchRegisterRequest:
-			rep := lab.Coord.Model(kind, m)
-			if resp, ok := rep.Body.(message.BranchRegisterResponse); ok && resp.ResultCode == message.ResultCodeSuccess {
-				mu.Lock()
-				regs[req.Xid] = append(regs[req.Xid], reg{resp.BranchId, req.ResourceId})
-				mu.Unlock()
-			}
-			return rep, true
-		case message.GlobalCommitRequest:
-			mu.Lock()
-			bs := regs[req.Xid]
-			delete(regs, req.Xid)
-			mu.Unlock()
-			p2.Add(1)
-			go func() {
-				defer p2.Done()
-				for _, b := range bs {
-					lab.Coord.BranchCommit(lab.Sess, req.Xid, b.bid, branch.BranchTypeAT, b.rid, nil, 10*time.Second)
-				}
-			}()
-			return tc.Reply{}, false
-		case message.GlobalRollbackRequest:
-			mu.Lock()
-			bs := regs[req.Xid]
-			delete(regs, req.Xid)
-			mu.Unlock()
-			rep := lab.Coord.Model(kind, m)
-			p2.Add(1)
-			go func() {
-				defer p2.Done()
-				for i := len(bs) - 1; i >= 0; i-- {
-					for try := 0; try < 5; try++ {
-						st, ok := lab.Coord.BranchRollback(lab.Sess, req.Xid, bs[i].bid, branch.BranchTypeAT, bs[i].rid, nil, 10*time.Second)
-						if ok && st == branch.BranchStatusPhasetwoRollbacked {
-							break
-						}
-						time.Sleep(20 * time.Millisecond)
-					}
-				}
-				lab.Coord.ReleaseLocks(req.Xid)
-			}()
-			return rep, true
-		}
-		return tc.Reply{}, false
+	if v := os.Getenv("VERIF_STRESS_KINDS"); v != "" { // debugging aid: restrict the mix, e.g. "xa" or "at,tcc"
+		txKinds = strings.Split(v, ",")
 	}
-
-	// warm-up: pools, metadata cache and lazily started goroutines reach their steady state
-	{
-		var wg sync.WaitGroup
-		for wk := 0; wk < 8; wk++ {
-			wg.Add(1)
-			go func(wk int) {
-				defer wg.Done()
-				for n := 0; n < 4; n++ {
-					oneTx(lab, schema, int64(wk*100+n))
-				}
-			}(wk)
-		}
-		wg.Wait()
-		p2.Wait()
-		time.Sleep(500 * time.Millisecond)
+	if v := os.Getenv("VERIF_STRESS_WORKERS"); v != "" {
+		fmt.Sscanf(v, "%dx%d", &workers, &perWorker)
 	}
+	e.warmUp()
+	n := 0
+	seenRace := map[string]bool{}
 	for bi, gp := range procs {
+		if !o.Want(bi) {
+			continue
+		}
 		runtime.GOMAXPROCS(gp)
 		t := w.Begin(map[string]interface{}{"i": bi, "gomaxprocs": gp, "workers": workers, "per": perWorker},
 			fmt.Sprintf("batch,gomaxprocs=%d,workers=%d", gp, workers))
-		t.Add("Start", "sig", "start")
-		// settle, then take the baseline
-		time.Sleep(300 * time.Millisecond)
-		runtime.GC()
-		g0 := runtime.NumGoroutine()
-		open0 := lab.Srv.OpenConns()
-		var wg sync.WaitGroup
-		var tmu sync.Mutex
-		hung := 0
-		for wk := 0; wk < workers; wk++ {
-			wg.Add(1)
-			go func(wk int) {
-				defer wg.Done()
-				r := rand.New(rand.NewSource(o.Seed*7919 + int64(bi*1000+wk)))
-				for n := 0; n < perWorker; n++ {
-					id := wk*1000 + n
-					tmu.Lock()
-					t.Add("TxStart", "id", id, "sig", "tx")
-					tmu.Unlock()
-					done := make(chan string, 1)
-					go func() { done <- oneTx(lab, schema, r.Int63()) }()
-					var outcome string
-					select {
-					case outcome = <-done:
-					case <-time.After(60 * time.Second):
-						outcome = "hung"
-						tmu.Lock()
-						hung++
-						tmu.Unlock()
-					}
-					tmu.Lock()
-					t.Add("TxEnd", "id", id, "outcome", outcome, "sig", "tx:"+outcome)
-					tmu.Unlock()
-					if r.Intn(6) == 0 {
-						runtime.Gosched()
-					}
-				}
-			}(wk)
-		}
-		// metadata refresh and a fresh handle being opened while traffic runs
-		wg.Wait()
-		p2.Wait()
-		// quiescence: the async commit worker flushes on a timer; give everything time to come to rest
-		deadline := time.Now().Add(8 * time.Second)
-		var inuse, intx, fut, mer, gdelta int
-		for {
-			inuse = lab.DB.Stats().InUse
-			intx = 0
-			for _, c := range lab.Srv.ConnStates() {
-				if !c.Closed && (c.InTx || c.Locks > 0) {
-					intx++
-				}
-			}
-			fut, mer = sgetty.VerifPendingFutures()
-			runtime.GC()
-			gdelta = runtime.NumGoroutine() - g0
-			if (inuse == 0 && intx == 0 && fut == 0 && gdelta <= 0) || time.Now().After(deadline) {
-				break
-			}
-			time.Sleep(100 * time.Millisecond)
-		}
-		// physical connections: whatever is open beyond the pool's idle allowance is lost
-		connleak := lab.Srv.OpenConns() - open0 - 8
-		if connleak < 0 {
-			connleak = 0
-		}
-		if gdelta < 0 {
-			gdelta = 0
-		}
-		t.Add("Quiesce", "hung", hung, "inuse", inuse, "connleak", connleak, "intx", intx, "futures", fut+mer,
-			"goroutines", gdelta, "undoleft", lab.UndoRows(),
-			"sig", fmt.Sprintf("quiesce:hung=%v:inuse=%v:connleak=%v:intx=%v:futures=%v:goroutines=%v", hung > 0, inuse > 0, connleak > 0, intx > 0, fut+mer > 0, gdelta > 0))
-		for _, rs := range raceReports() {
-			t.Add("Race", "where", rs, "sig", "race:"+rs)
-		}
-		t.Add("End", "sig", "end")
+		e.batch(t, bi, workers, perWorker, churns, hotN, hotD)
 		t.Close()
+		n++
+		// every data-race report not seen before is a trace of its own: one signature per report
+		for _, rs := range raceReports() {
+			if seenRace[rs] {
+				continue
+			}
+			seenRace[rs] = true
+			rt := w.Begin(map[string]interface{}{"i": bi, "gomaxprocs": gp, "race": rs}, "race-report")
+			rt.Add("Start", "sig", "start")
+			rt.Add("Race", "where", rs, "sig", "race:"+rs)
+			rt.Add("End", "sig", "end")
+			rt.Close()
+		}
 	}
+	dumpRaceLog()
 	if err := w.Close(); err != nil {
 		common.Fatal("%v", err)
 	}
 	fmt.Printf("DRIVER-OK traces=%d scenarios=%d\n", w.Count(), len(procs))
 }
 
-// one global transaction: 1-2 AT branches on random rows, committed or rolled back
-func oneTx(lab *atlab.Lab, schema *atlab.Schema, seed int64) (outcome string) {
-	defer func() {
-		if p := recover(); p != nil {
-			outcome = "panic"
+// ---------------------------------------------------------------------------------------------------
+// supervision
+
+var fatalRE = regexp.MustCompile(`(?m)^(fatal error: .*|panic: .*)$`)
+
+func supervise() {
+	dir, err := os.MkdirTemp("", "verif-race")
+	if err != nil {
+		common.Fatal("%v", err)
+	}
+	defer os.RemoveAll(dir)
+	exe, err := os.Executable()
+	if err != nil {
+		common.Fatal("%v", err)
+	}
+	logBase := filepath.Join(dir, "race")
+	cmd := exec.Command(exe, os.Args[1:]...)
+	cmd.Env = append(os.Environ(), "VERIF_RACE_LOG="+logBase, "GORACE=log_path="+logBase+" halt_on_error=0 exitcode=0")
+	var tail bytes.Buffer
+	cmd.Stdout = os.Stdout
+	cmd.Stderr = io.MultiWriter(os.Stderr, &tail)
+	runErr := cmd.Run()
+	if runErr == nil {
+		return
+	}
+	m := fatalRE.FindString(tail.String())
+	if m == "" {
+		// not a crash of the code under test (bad flags, DRIVER-FATAL ...): pass the failure on
+		os.RemoveAll(dir)
+		if ee, ok := runErr.(*exec.ExitError); ok {
+			os.Exit(ee.ExitCode())
+		}
+		os.Exit(3)
+	}
+	// the workload killed the process: one batch trace that says so (and carries the race reports so far)
+	o := common.Parse()
+	os.Setenv("VERIF_RACE_LOG", logBase)
+	w, err := trace.NewWriter(o.Out)
+	if err != nil {
+		common.Fatal("%v", err)
+	}
+	what := m
+	if i := strings.Index(what, " [recovered]"); i > 0 {
+		what = what[:i]
+	}
+	if len(what) > 120 {
+		what = what[:120]
+	}
+	t := w.Begin(map[string]interface{}{"i": 0, "crash": what}, "batch,crashed")
+	t.Add("Start", "sig", "start")
+	t.Add("Crash", "what", what, "sig", "crash:"+what)
+	t.Add("End", "sig", "end")
+	t.Close()
+	for _, rs := range raceReports() {
+		rt := w.Begin(map[string]interface{}{"i": 0, "race": rs}, "race-report")
+		rt.Add("Start", "sig", "start")
+		rt.Add("Race", "where", rs, "sig", "race:"+rs)
+		rt.Add("End", "sig", "end")
+		rt.Close()
+	}
+	if err := w.Close(); err != nil {
+		common.Fatal("%v", err)
+	}
+	fmt.Printf("DRIVER-OK traces=%d scenarios=1 crashed=1\n", w.Count())
+}
+
+// ---------------------------------------------------------------------------------------------------
+// set-up
+
+func setup(o *common.Opts) *env {
+	cfg := tc.DefaultConfig()
+	cfg.LoadBalance = "RandomLoadBalance"
+	cfg.ClientExtra = atlab.XAClientYaml // the hold-time checker never force-closes: schedule independent
+	// the asynchronous commit worker flushes often and in small batches (documented keys under seata.async), so
+	// that phase-two commits keep arriving while earlier batches are still being worked on
+	cfg.Extra = "  async:\n    buffer_limit: 4\n    buffer_clean_interval: 15ms\n"
+	e := &env{o: o}
+	e.lab = atlab.Open(cfg, "stressdb")
+	e.lab.NKeys = 16
+	e.schema = atlab.ByName("t_int")
+	e.lab.Reset(e.schema)
+	for k := 1; k <= 16; k++ {
+		e.lab.Srv.MustExec(fmt.Sprintf("INSERT INTO t_int (id, w1, w2, u1) VALUES (%d, 10, 'v0', 7)", k))
+	}
+	e.lab.Srv.SetLockWaitTimeout(2 * time.Second)
+	e.co = newCoordinator(e.lab.Coord, e.lab.Sess)
+	// two XA databases: a server that detaches prepared branches (>= 8.0.29) with a tuned pool, and an
+	// older one behind a handle with database/sql's default pool (2 idle connections)
+	e.xa = []*xaDB{openXA("stressxa30", "8.0.30", 8), openXA("stressxa28", "8.0.28", 0)}
+	// The table-meta cache is one per database *type* and every sql.Open replaces it by one that reads
+	// from the handle just opened: the AT handle has to be the last one opened, or AT statements look for
+	// their tables on the XA servers.
+	old := e.lab.DB
+	db, err := sql.Open("seata-at-memsql", e.lab.DSN())
+	if err != nil {
+		common.Fatal("re-open AT handle: %v", err)
+	}
+	e.lab.DB = db
+	old.Close()
+	e.lab.DB.SetMaxIdleConns(8)
+	e.tcc = openTCC("stressfence")
+	e.co.open(e.co.prepare(1)[0]) // a client with two connections to the coordinator
+	e.lbSessions = lbTable(e.lab.Coord.Addr)
+	return e
+}
+
+// warmUp: pools, metadata cache and lazily started goroutines reach their steady state
+func (e *env) warmUp() {
+	var wg sync.WaitGroup
+	for wk := 0; wk < 8; wk++ {
+		wg.Add(1)
+		go func(wk int) {
+			defer wg.Done()
+			for n := 0; n < 4; n++ {
+				e.oneTx(txKinds[(wk+n)%len(txKinds)], int64(wk*100+n))
+			}
+		}(wk)
+	}
+	wg.Wait()
+	e.co.sweep()
+	e.co.p2.Wait()
+	time.Sleep(500 * time.Millisecond)
+}
+
+// ---------------------------------------------------------------------------------------------------
+// accounting
+
+type measure struct {
+	inuse, intx, xaconns, xaprepared, xaheld, fencetx, futures, goroutines, undo, undoMarkers int
+	unowned, xaUnowned                                                          int // physical connections no pool owns (AT + fence servers / XA servers)
+}
+
+// pools lists every database/sql pool of the process: the handles the application holds and the inner
+// pools of the AT / XA resources (undo log, metadata, phase two).
+func (e *env) pools() []*sql.DB {
+	ps := []*sql.DB{e.lab.DB, e.lab.Bare, e.tcc.db}
+	for _, x := range e.xa {
+		ps = append(ps, x.db)
+	}
+	for _, bt := range []branch.BranchType{branch.BranchTypeAT, branch.BranchTypeXA} {
+		rm.GetRmCacheInstance().GetResourceManager(bt).GetCachedResources().Range(func(_, v interface{}) bool {
+			if res, ok := v.(*sqlpkg.DBResource); ok && res.GetDB() != nil {
+				ps = append(ps, res.GetDB())
+			}
+			return true
+		})
+	}
+	return ps
+}
+
+func (e *env) servers() []*memsql.Server {
+	ss := []*memsql.Server{e.lab.Srv, e.tcc.srv}
+	for _, x := range e.xa {
+		ss = append(ss, x.srv)
+	}
+	return ss
+}
+
+func (e *env) isXA(s *memsql.Server) bool {
+	for _, x := range e.xa {
+		if x.srv == s {
+			return true
+		}
+	}
+	return false
+}
+
+func (e *env) measure() measure {
+	var m measure
+	xaPools := map[*sql.DB]bool{}
+	for _, x := range e.xa {
+		xaPools[x.db] = true
+	}
+	rm.GetRmCacheInstance().GetResourceManager(branch.BranchTypeXA).GetCachedResources().Range(func(_, v interface{}) bool {
+		if res, ok := v.(*sqlpkg.DBResource); ok && res.GetDB() != nil {
+			xaPools[res.GetDB()] = true
+		}
+		return true
+	})
+	for _, p := range e.pools() {
+		st := p.Stats()
+		m.inuse += st.InUse
+		if xaPools[p] {
+			m.xaUnowned -= st.OpenConnections
+		} else {
+			m.unowned -= st.OpenConnections
+		}
+	}
+	for _, s := range e.servers() {
+		if e.isXA(s) {
+			m.xaUnowned += s.OpenConns()
+		} else {
+			m.unowned += s.OpenConns()
+		}
+		for _, c := range s.ConnStates() {
+			if c.Closed {
+				continue
+			}
+			switch {
+			case c.XA != "":
+				m.xaconns++
+			case (c.InTx || c.Locks > 0) && s == e.tcc.srv:
+				m.fencetx++
+			case c.InTx || c.Locks > 0:
+				m.intx++
+			}
+		}
+		m.xaprepared += len(s.PreparedXA())
+	}
+	rm.GetRmCacheInstance().GetResourceManager(branch.BranchTypeXA).GetCachedResources().Range(func(_, v interface{}) bool {
+		if res, ok := v.(*sqlpkg.DBResource); ok {
+			res.GetKeeper().Range(func(_, _ interface{}) bool { m.xaheld++; return true })
+		}
+		return true
+	})
+	f, mer := sgetty.VerifPendingFutures()
+	m.futures = f + mer
+	m.goroutines = runtime.NumGoroutine()
+	// undo rows: normal ones (log_status 0) belong to unfinished branches; a marker (log_status 1) is what a
+	// rollback leaves on purpose when it finds no undo log (it makes a late phase one fail) - it is removed
+	// by the coordinator's periodic clean-up only
+	for _, r := range e.lab.Srv.Snapshot("undo_log")["undo_log"] {
+		if fmt.Sprint(r["log_status"]) == "1" {
+			m.undoMarkers++
+		} else {
+			m.undo++
+		}
+	}
+	return m
+}
+
+// ---------------------------------------------------------------------------------------------------
+// one batch
+
+// lateRegs: TCC services created lazily per batch while the mix runs (each on a goroutine of its own)
+const lateRegs = 6
+
+func (e *env) batch(t *trace.T, bi, workers, perWorker, churns, hotN int, hotD time.Duration) {
+	o := e.o
+	// settle, then take the baseline
+	time.Sleep(300 * time.Millisecond)
+	e.co.resetBatch()
+	e.tcc.book.reset()
+	e.tcc.srv.MustExec("DELETE FROM effects")
+	e.tcc.srv.MustExec("DELETE FROM tcc_fence_log")
+	e.lab.Coord.ClearLog() // the stand-ins' logs are not used here and grow without bound otherwise
+	for _, s := range e.servers() {
+		s.ClearJournal()
+	}
+	runtime.GC()
+	base := e.measure()
+	t.Add("Start", "live", len(e.co.sessions), "sig", "start")
+	// Every goroutine of the workload records its events in a log of its own; the logs are merged into the
+	// trace when the goroutine has been joined (a shared lock at every TxStart/TxEnd would order the
+	// goroutines, and with them the client's memory accesses, for the race detector).
+	type evlog struct {
+		evs  [][]interface{}
+		hung int
+	}
+	merge := func(l *evlog) int {
+		for _, ev := range l.evs {
+			t.Add(ev[0].(string), ev[1:]...)
+		}
+		return l.hung
+	}
+	hung := 0
+	run := func(l *evlog, id int, kind string, seed int64) {
+		l.evs = append(l.evs, []interface{}{"TxStart", "id", id, "kind", kind, "sig", "tx:" + kind})
+		done := make(chan string, 1)
+		go func() { done <- e.oneTx(kind, seed) }()
+		var outcome string
+		select {
+		case outcome = <-done:
+		case <-time.After(60 * time.Second):
+			outcome = "hung"
+			l.hung++
+		}
+		l.evs = append(l.evs, []interface{}{"TxEnd", "id", id, "kind", kind, "outcome", outcome, "sig", "tx:" + kind + ":" + outcome})
+	}
+
+	// phase A: the transaction mix, with session churn and a lazily registered TCC action meanwhile
+	var wg sync.WaitGroup
+	logs := make([]*evlog, workers+2)
+	for wk := 0; wk < workers; wk++ {
+		wg.Add(1)
+		logs[wk] = &evlog{}
+		go func(wk int) {
+			defer wg.Done()
+			r := rand.New(rand.NewSource(o.Seed*7919 + int64(bi*1000+wk)))
+			for n := 0; n < perWorker; n++ {
+				run(logs[wk], wk*1000+n, txKinds[r.Intn(len(txKinds))], r.Int63())
+				if r.Intn(6) == 0 {
+					runtime.Gosched()
+				}
+			}
+		}(wk)
+	}
+	pre := e.co.prepare(churns)
+	churnLog := &evlog{}
+	logs[workers] = churnLog
+	wg.Add(1)
+	go func() {
+		defer wg.Done()
+		r := rand.New(rand.NewSource(o.Seed*104729 + int64(bi)))
+		for n := 0; n < churns; n++ {
+			time.Sleep(time.Duration(40+r.Intn(80)) * time.Millisecond)
+			if live, ok := e.co.lose(); ok {
+				churnLog.evs = append(churnLog.evs, []interface{}{"Session", "op", "lose", "live", live, "sig", "session:lose"})
+			}
+			time.Sleep(time.Duration(5+r.Intn(30)) * time.Millisecond)
+			live := e.co.open(pre[n])
+			churnLog.evs = append(churnLog.evs, []interface{}{"Session", "op", "open", "live", live, "sig", "session:open"})
 		}
 	}()
-	r := rand.New(rand.NewSource(seed))
-	wantRollback := r.Intn(3) == 0
-	var phase1 error
-	err := tm.WithGlobalTx(context.Background(), &tm.GtxConfig{Name: "stress", Timeout: 30 * time.Second}, func(ctx context.Context) error {
-		n := 1 + r.Intn(2)
-		for b := 0; b < n; b++ {
-			k := 1 + r.Intn(16)
-			var err error
-			switch r.Intn(3) {
-			case 0:
-				_, err = lab.DB.ExecContext(ctx, "UPDATE t_int SET w1 = ? WHERE id = ?", 10+r.Intn(5), k)
-			case 1:
-				_, err = lab.DB.ExecContext(ctx, "UPDATE t_int SET w2 = ?, u1 = ? WHERE id IN (?, ?)", fmt.Sprintf("v%d", r.Intn(5)), 7+r.Intn(2), k, 1+r.Intn(16))
-			default:
-				tx, e := lab.DB.BeginTx(ctx, nil)
-				if e != nil {
-					err = e
-					break
-				}
-				if _, e = tx.ExecContext(ctx, "UPDATE t_int SET w1 = w1 + 1 WHERE id = ?", k); e != nil {
-					_ = tx.Rollback()
-					err = e
-					break
-				}
-				err = tx.Commit()
-			}
-			if err != nil {
-				phase1 = err
-				return err
-			}
-		}
-		if wantRollback {
-			return errors.New("business rollback")
-		}
-		return nil
-	})
-	switch {
-	case phase1 != nil:
-		return "failed" // lock conflict or lock wait: a definite, surfaced outcome
-	case err != nil:
-		return "rolledback"
-	default:
-		return "committed"
+	// an application that creates a TCC service on first use: the registration runs on a goroutine that
+	// has touched nothing else before, next to the phase-two look-ups of the running transactions
+	late := make([]*action, lateRegs)
+	for n := 0; n < lateRegs; n++ {
+		wg.Add(1)
+		go func(n int) {
+			defer wg.Done()
+			time.Sleep(time.Duration(30+45*n) * time.Millisecond)
+			late[n] = e.tcc.registerLate(bi, n)
+		}(n)
 	}
-}
+	wg.Wait()
+	for _, l := range logs {
+		if l != nil {
+			hung += merge(l)
+		}
+	}
+	for _, a := range late {
+		e.tcc.adopt(a)
+	}
 
-// frames of the repository's code: /repo, or the scratch tree named by VERIF_REPO (tools/try_mutant_alt.sh)
-var frameRE = regexp.MustCompile(`^\s+(` + regexp.QuoteMeta(repoDir()) + `/[^\s:]+):(\d+)`)
-
-func repoDir() string {
-	if d := os.Getenv("VERIF_REPO"); d != "" {
-		return strings.TrimRight(d, "/")
-	}
-	return "/repo"
-}
-
-var funcRE = regexp.MustCompile(`^\s+seata\.apache\.org/seata-go/(\S+?)\(`)
-
-// raceReports parses the race detector's log (GORACE=log_path=...) into distinct signatures:
-// the innermost /repo frames of the two conflicting accesses.
-func raceReports() []string {
-	base := os.Getenv("VERIF_RACE_LOG")
-	if base == "" {
-		return nil
-	}
-	files, _ := filepath.Glob(base + ".*")
-	seen := map[string]bool{}
-	for _, f := range files {
-		fh, err := os.Open(f)
-		if err != nil {
-			continue
-		}
-		sc := bufio.NewScanner(fh)
-		sc.Buffer(make([]byte, 1<<20), 1<<24)
-		var cur []string
-		inStack, got := false, false
-		lastFunc := ""
-		flush := func() {
-			if len(cur) > 0 {
-				sort.Strings(cur)
-				seen[strings.Join(cur, "|")] = true
+	// phase B: the hot spot - tight loops over the shared read-mostly components, a few transactions meanwhile
+	var hw sync.WaitGroup
+	hotEnd := time.Now().Add(hotD)
+	hlogs := make([]*evlog, 3)
+	for k := 0; k < 3; k++ {
+		hw.Add(1)
+		hlogs[k] = &evlog{}
+		go func(k int) {
+			defer hw.Done()
+			r := rand.New(rand.NewSource(o.Seed*15485863 + int64(bi*10+k)))
+			for n := 0; time.Now().Before(hotEnd); n++ {
+				run(hlogs[k], 900000+k*1000+n, txKinds[r.Intn(len(txKinds))], r.Int63())
 			}
-			cur = nil
-		}
-		for sc.Scan() {
-			ln := sc.Text()
-			switch {
-			case strings.HasPrefix(ln, "WARNING: DATA RACE"):
-				flush()
-			case strings.HasPrefix(ln, "Read at") || strings.HasPrefix(ln, "Write at") || strings.HasPrefix(ln, "Previous write at") || strings.HasPrefix(ln, "Previous read at"):
-				inStack, got = true, false
-			case strings.HasPrefix(ln, "Goroutine ") || ln == "":
-				inStack = false
-			default:
-				if m := funcRE.FindStringSubmatch(ln); m != nil {
-					lastFunc = m[1]
-				}
-				if inStack && !got {
-					if m := frameRE.FindStringSubmatch(ln); m != nil {
-						cur = append(cur, lastFunc)
-						got = true
-					}
-				}
-			}
-		}
-		flush()
-		fh.Close()
+		}(k)
 	}
-	out := make([]string, 0, len(seen))
-	for k := range seen {
-		out = append(out, k)
+	hr := e.hotPhase(bi, hotN, hotD)
+	hw.Wait()
+	for _, l := range hlogs {
+		hung += merge(l)
 	}
-	sort.Strings(out)
-	return out
+	if hr.firstErr != "" && os.Getenv("VERIF_STRESS_DEBUG") != "" {
+		fmt.Fprintf(os.Stderr, "hot phase: %d errors, first: %s\n", hr.errs, hr.firstErr)
+	}
+	t.Add("Hot", "workers", hr.workers, "iters", hr.iters, "errs", hr.errs, "panics", hr.panics, "hung", hr.hung,
+		"sig", fmt.Sprintf("hot:hung=%v:panics=%v", hr.hung > 0, hr.panics > 0))
+
+	// the coordinator times out what is still undecided, then everything comes to rest
+	e.co.sweep()
+	e.co.p2.Wait()
+	// quiescence: the async commit worker flushes on a timer; give everything time to come to rest - until
+	// all measures are back, or nothing has moved for 2.5 s, or 8 s have passed
+	deadline := time.Now().Add(8 * time.Second)
+	var m, last measure
+	lastMove := time.Now()
+	var connleak, xaconnleak, gdelta int
+	for {
+		runtime.GC()
+		m = e.measure()
+		connleak = m.unowned - base.unowned
+		xaconnleak = m.xaUnowned - base.xaUnowned
+		gdelta = m.goroutines - base.goroutines
+		rest := m.inuse == 0 && connleak <= 0 && xaconnleak <= 0 && m.intx == 0 && m.fencetx == 0 && m.xaconns == 0 && m.xaprepared == 0 &&
+			m.xaheld == 0 && m.futures == 0 && gdelta <= 0 && m.undo == 0
+		if m != last {
+			last, lastMove = m, time.Now()
+		}
+		if rest || time.Now().After(deadline) || time.Since(lastMove) > 2500*time.Millisecond {
+			break
+		}
+		time.Sleep(100 * time.Millisecond)
+	}
+	if connleak < 0 {
+		connleak = 0
+	}
+	if xaconnleak < 0 {
+		xaconnleak = 0
+	}
+	if gdelta < 0 {
+		gdelta = 0
+	}
+	if m.undo > 0 && debug {
+		for _, r := range e.lab.Srv.Snapshot("undo_log")["undo_log"] {
+			fmt.Fprintf(os.Stderr, "undo row left: xid=%v branch=%v status=%v created=%v\n", r["xid"], r["branch_id"], r["log_status"], r["log_created"])
+		}
+	}
+	tccBranches, tccNoP2, tccExtra := e.co.tccVerdict(e.tcc.book)
+	fenced, fenceDup := e.co.fenceVerdict(e.tcc)
+	e.co.mu.Lock()
+	p2failed, swept := e.co.p2failed, e.co.swept
+	e.co.mu.Unlock()
+	b := func(v int) string {
+		if v > 0 {
+			return "true"
+		}
+		return "false"
+	}
+	t.Add("Quiesce", "hung", hung, "inuse", m.inuse, "connleak", connleak, "intx", m.intx, "futures", m.futures,
+		"goroutines", gdelta, "undoleft", m.undo, "undomarkers", m.undoMarkers-base.undoMarkers,
+		"xaheld", m.xaheld, "xaprepared", m.xaprepared, "xaconns", m.xaconns, "xaconnleak", xaconnleak,
+		"tccbranches", tccBranches, "tccnop2", tccNoP2, "tccextra", tccExtra, "fenced", fenced, "fencedup", fenceDup, "fencetx", m.fencetx,
+		"p2failed", p2failed, "swept", swept,
+		"sig", "quiesce:hung="+b(hung)+":inuse="+b(m.inuse)+":connleak="+b(connleak)+":intx="+b(m.intx)+":futures="+b(m.futures)+
+			":goroutines="+b(gdelta)+":undo="+b(m.undo)+":xaheld="+b(m.xaheld)+":xaprepared="+b(m.xaprepared)+":xaconns="+b(m.xaconns)+":xaconnleak="+b(xaconnleak)+
+			":tccnop2="+b(tccNoP2)+":tccextra="+b(tccExtra)+":fencedup="+b(fenceDup)+":fencetx="+b(m.fencetx))
+	t.Add("End", "sig", "end")
 }
